@@ -56,7 +56,8 @@ def time_comparison_table(cls: ast.ClassDef, method: str, depth: int = 0) -> Dic
     def call(e: ast.AST, cell):
         # self.__lt__(other) / other.__lt__(self) / self < other
         if isinstance(e, ast.Call) and isinstance(e.func, ast.Attribute) and isinstance(e.func.value, ast.Name) \
-                and e.func.attr in COMPARISONS and len(e.args) == 1 and isinstance(e.args[0], ast.Name):
+                and (e.func.attr in COMPARISONS or e.func.attr in methods) and len(e.args) == 1 and isinstance(e.args[0], ast.Name):
+            # a comparison method or any other boolean one-argument helper of the class: its own table, recursively
             recv, arg = e.func.value.id, e.args[0].id
             table = time_comparison_table(cls, e.func.attr, depth + 1)
             if recv == "self" and arg == other:
